@@ -12,7 +12,7 @@ import opkit
 from cases import CaseSet, rng_for, pick_semiring
 
 PID = "C06"
-KINDS = ["emb", "cat_probs", "cat_logits", "cat_softmax", "bin", "gau", "poly"]
+KINDS = ["emb", "cat_probs", "cat_logits", "cat_softmax", "cat_softmax0", "bin", "gau", "poly"]
 
 
 def evidence_case(rep, cs, seed, i):
